@@ -2,23 +2,12 @@ import LlirModel.Bytes
 /-! Positional digit strings (math/big `Text`/`SetString`, strconv `FormatInt`) -/
 namespace Llir.Digits
 open Llir
-
-/-- digits of `n` in base `b`, least significant first; `[0]` for 0. -/
-def digitsRev (b : Nat) (n : Nat) : List Nat :=
-  if _h : b < 2 then [n] else
-  if n < b then [n] else (n % b) :: digitsRev b (n / b)
-termination_by n
-decreasing_by
-  have : 2 ≤ b := by omega
-  have : 0 < n := by omega
-  exact Nat.div_lt_self (by omega) (by omega)
+export Llir (digitsRev digitChar)
 
 def ofDigitsRev (b : Nat) : List Nat → Nat
   | [] => 0
   | d :: ds => d + b * ofDigitsRev b ds
 
-/-- lower-case digit character (big.Int.Text) -/
-def digitChar (d : Nat) : UInt8 := if d < 10 then UInt8.ofNat (48 + d) else UInt8.ofNat (87 + d)
 /-- upper-case (strings.ToUpper of the hex text) -/
 def digitCharUpper (d : Nat) : UInt8 := if d < 10 then UInt8.ofNat (48 + d) else UInt8.ofNat (55 + d)
 
